@@ -410,15 +410,16 @@ class LongTexts(Harness):
           'literals, long identifiers and digit runs, deep parentheses, operator runs (the run itself is symbolic text)'
     functions = ('grammarparser.lexer.t_STRING', 'grammarparser.lexer.t_FUNCTION', 'grammarparser.lexer.t_VARIABLE', 'ply.lex.Lexer.token',
                  're (backtracking of the master regex, mirrored by the symbolic matcher)')
-    bounds = '%d templates with a symbolic run of 24 (quick) / 40 (thorough) characters from the template\'s class (letters and ' \
+    bounds = '%d templates with a symbolic run of 32 (quick) / 48 (thorough) characters from the template\'s class (letters and ' \
              'spaces, digits, or operator characters); termination = decision / iteration budget of the symbolic matcher, ' \
              'confirmed by replay under a wall-clock limit (the real regex engine runs in C)' % len(LONG_TEMPLATES)
     max_decisions = 3000
     max_ticks = 5000
+    replay_timeout_s = 20      # wall-clock limit of one concrete replay (the unchanged tree needs milliseconds)
     case_timeout_s = {'quick': 60, 'thorough': 200}
 
     def cases(self, tier):
-        return [{'t': i, 'n': 24 if tier == 'quick' else 40} for i in range(len(LONG_TEMPLATES))]
+        return [{'t': i, 'n': 32 if tier == 'quick' else 48} for i in range(len(LONG_TEMPLATES))]
 
     def build(self, e, p):
         kind = LONG_TEMPLATES[p['t']][2]
